@@ -7,6 +7,8 @@ from rulelib import (walk, match_table, nonpanic, path_sig, event_strs, where, d
 from pathwalk import const_val
 import intervals
 
+import witness
+
 EXPLANATION = ("(1) TryFrom<Headers> for SessionRequest: Ok is reached only under the five guards (:method==CONNECT, :scheme==https, "
                ":protocol==webtransport, :authority and :path present), each failing guard has its own error; (2) StatusCode invariant: "
                "every construction site of StatusCode in both crates either uses a constant in 100..=599 or is dominated by guards that bound "
@@ -91,6 +93,8 @@ def run(ctx):
     match_table(ctx, "C18-R2", f, ps_, rows, "SessionResponse::try_from")
     targs = {tuple(e[5].get("targs", [])) for p in ps_ for e in p.events if e[0] == "call" and e[1].endswith("str>::parse")}
     ctx.check("C18-R2", "status parsed as StatusCode", targs == {("wtransport_proto::ids::StatusCode",)}, "`:status` is not parsed into StatusCode: %s" % targs, where(f))
+
+    witness.run(ctx, "C18-R2", {"C18"})
 
     ctx.rule("C18-R3", "RESERVED_HEADERS == the five pseudo-headers; insert() writes only when the key is not reserved")
     c = A.const("wtransport_proto::session::SessionRequest::RESERVED_HEADERS")
